@@ -1,5 +1,7 @@
 package ctext
 
+import "strconv"
+
 // HLSL reflection (C07 layout, C16 identifiers, C17 bindings).
 
 // HLSLResource describes one resource variable of an HLSL program.
@@ -86,8 +88,20 @@ func (p *Program) HLSLResources() []HLSLResource {
 // "cbuffer" or "raw".  The register space is reported by HLSLResources.
 func (p *Program) hlslBlocks() []BlockInfo {
 	var out []BlockInfo
+	resOf := map[*IfaceBlock]*hlslResource{}
+	for _, r := range p.hl.resources {
+		if r.Block != nil {
+			resOf[r.Block] = r
+		}
+	}
 	for _, b := range p.blocks {
-		bi := BlockInfo{Name: b.Name, Class: b.Class, Binding: b.Binding, Layout: b.Layout, Size: b.Size, ReadOnly: b.Class != 'u'}
+		bi := BlockInfo{Name: b.Name, Class: b.Class, Binding: b.Binding, Layout: b.Layout, Size: b.Size, ReadOnly: b.Class != 'u', Space: "space0"}
+		if r := resOf[b]; r != nil {
+			bi.Type = r.Kind
+			if r.Reg != nil {
+				bi.Space = "space" + strconv.Itoa(r.Reg.Space)
+			}
+		}
 		for _, m := range b.Members {
 			bi.Members = append(bi.Members, hlslMemberInfo(m.Name, m.T, m.Offset, m.Lay))
 		}
